@@ -72,9 +72,10 @@ def oracle(ctx, case, steps, ctor_err):
 
 def classify(case):
     """E1: a double bond is cut and the final node indices do not follow one left-to-right writing of
-    it: the base graph lists its right-hand fragment first, or the right-hand fragment is written
-    substituent first"""
-    if case.get('reversed_double') or case.get('right_ligand_first'):
+    it: the base graph lists its right-hand fragment first, the right-hand fragment is written
+    substituent first, or a marked substituent that is cut off as its own fragment is listed on the
+    other side of its atom than it was written"""
+    if case.get('reversed_double') or case.get('right_ligand_first') or case.get('reversed_ligand'):
         return 'E1'
     return None
 
